@@ -10,6 +10,14 @@ CHECKS = {
    text="every struct case of a bounded grammar (shape x counterpart form x per-member instruction menu x ghosts x update x index permutations) is rendered semantics-first, compiled through the real #[derive(o2o::o2o)] by rustc and executed for all 12 conversion kinds and 2 value assignments; every destination leaf is compared with the reference model's expected literal",
    note="member count <= 3 (4 with the reduced menu); leaves are i32/i64; model M_sem transcribed from README; known defects of the pinned tree are listed in known_findings.json by cell-level tag predicates",
    technique=TECH_X + " + reference-model conformance through rustc and execution"),
+ "C04": dict(level="model_checking", design="DESIGN.md §8 C04",
+   text="every multiset of <= 3 of the 24 trait-instruction names over 1-2 counterparts in every order x 6 counterpart type forms x 4 error type forms x struct|enum: the multiset of generated impl headers (trait path, Self, argument, type Error), read through a real parser, must equal the reference tables M_appl o M_hdr transcribed from README:190-264",
+   note="headers only (bodies are C01-C03); T::<X> and T<X> are the same type; in-process expansion (fallback lexer, syn 1)",
+   technique=TECH_X + " + comparison with a reference table model"),
+ "C17": dict(level="exploration", design="DESIGN.md §8 C17",
+   text="every accepted input of the host corpus (semantic struct cases + feature-interaction products for structs, enums and enum->primitive hosts, ~1M inputs thorough) must expand to a token stream that parses (syn 2 full) as impl items only, each of one of the six traits with exactly one fn of the documented name/signature and `type Error` iff fallible",
+   note="`parses` is judged by syn 2 here; rustc judges the compiled properties (C01-C03, C07, C11, C20); corpus expressions/types/patterns are well-formed by construction",
+   technique=TECH_X + " + structural inspection of the output through a real parser"),
  "C16": dict(level="exploration", design="DESIGN.md §8 C16",
    text="bounded exhaustive enumeration of derive inputs (token soup per instruction, all pairs/triples of a 90-entry instruction catalogue over all holes of 4 hosts, all single-token mutations) run through the real derive under catch_unwind; no sampling",
    note="inputs lexed by proc_macro2's fallback lexer + syn 1 default features (the production path minus rustc's lexer); bounds: argument length <= 3 tokens, <= 3 instructions per input; panics already present on the pinned tree are listed in known_findings.json by (panic site, minimal cause class)",
